@@ -2,3 +2,21 @@
 //! positive controls for rules whose expected number of violations on the real crate is zero.
 #![allow(static_mut_refs, dead_code, unused)]
 pub mod c20;
+pub mod guards;
+pub mod isqrt;
+pub mod zoc;
+
+/// same name and signature as the crate's helper: the haversine sibling rule looks it up by path
+#[inline(never)]
+pub fn squared_half_segment(dlon: f64, dlat: f64, cos_lat1: f64, cos_lat2: f64) -> f64 {
+  (0.5 * dlat).sin().powi(2) + cos_lat1 * cos_lat2 * (0.5 * dlon).sin().powi(2)
+}
+
+pub fn hav_good(lon1: f64, lat1: f64, lon2: f64, lat2: f64) -> f64 {
+  squared_half_segment(lon2 - lon1, lat2 - lat1, lat1.cos(), lat2.cos())
+}
+
+/// cosine of a longitude where the cosine of the latitude is needed
+pub fn hav_bad(lon1: f64, lat1: f64, lon2: f64, lat2: f64) -> f64 {
+  squared_half_segment(lon2 - lon1, lat2 - lat1, lon1.cos(), lat2.cos())
+}
